@@ -61,4 +61,22 @@ PROPS = {
         explanation="Theorems C07_* hold for all pairs of (day, nanosecond) values; figures describe the differential run.",
         trusted_base=TB_COMMON, assumptions=ASSUME_COMMON,
     ),
+    "C09": dict(
+        cases_mod="CasesArith", check_fn="check_C09",
+        rule="values whose local date differs from the UTC date (23:30 +01:00, 00:15 -00:30), month/year ends, 29 Feb in AD and BC leap years, sub-second remainders, range ends; 10 setters x candidate values {0, 1, max-1, max, max+1, 2^32-1, random} and years incl. the era boundary; 9 clear_until_* operations; on DateTime, Time and Date; all fields re-read in local time. Non-trivial: every case.",
+        explanation="Theorems C09_* hold for every value, offset and candidate; figures describe the differential run.",
+        trusted_base=TB_COMMON, assumptions=ASSUME_COMMON,
+    ),
+    "C10": dict(
+        cases_mod="CasesArith", check_fn="check_C10",
+        rule="instants (boundary-dense, both range ends) x offsets {0, +-1, +-59, +-60, +-3599, +-3600, +-5400, +-86399, random}: set_offset, as_offset, every getter and timestamp(); Time set_offset/as_offset; Offset::from_seconds around +-86399/86400 and i32 extremes (thorough: all 172799 accepted values), Offset::from_hms over hour -25..25 x minute/second {0,1,30,59,60,2^32-1}. Non-trivial: new offset differs / offset non-zero.",
+        explanation="Theorems C10_* hold for every value and every offset in (-24h, +24h); figures describe the differential run.",
+        trusted_base=TB_COMMON, assumptions=ASSUME_COMMON,
+    ),
+    "C15": dict(
+        cases_mod="CasesArith", check_fn="check_C15",
+        rule="argument tuples over the full u32/i32 domains: boundary products {0, 1, max-1, max, max+1, 2^31, 2^32-1} per parameter for from_ymd, from_ymdhms, from_hms, Time::from_hms/from_seconds/from_nanos, Offset::from_seconds/from_hms and the set_* methods of Date, Time, DateTime (incl. values at both range ends with offsets), plus random tuples. The error's (name, min, max, value, custom) is compared with the model. Non-trivial: every case.",
+        explanation="Theorems C15_* hold for all argument tuples; figures describe the differential run.",
+        trusted_base=TB_COMMON, assumptions=ASSUME_COMMON,
+    ),
 }
